@@ -3,6 +3,8 @@ Script(cmds).evaluate(message, env_data) and Script.stack of /repo (public API o
 
   ev <env> <libsigs> <coresigs> <cmds>      (the two oracle tables are for the models; ignored here)
 answer: VALID | INVALID | UNIMPL | CRASH:<ExceptionType>, then the stack bottom..top ("." empty stack)
+  ses <libsigs> <coresigs> <step> ...       several constructor / evaluate calls in one process (see run_session)
+answer: one token per step joined by ";"
 """
 import sys, os, logging, hashlib
 sys.path.insert(0, os.path.dirname(os.path.abspath(__file__)))
@@ -42,7 +44,85 @@ def stack_tok(st):
     return ','.join(out)
 
 
+def run_session(toks):
+    """ses <libtable> <coretable> step ...   — all steps in THIS process, objects live on between steps
+         N/<id>/<cmds>/<msg|N>/<env|N>   name = Script(cmds, message=msg, env_data=env)      -> '-'
+         E/<id>/<msg|N>/<env|N>          name.evaluate(message=msg, env_data=env)            -> verdict:Script.stack
+    The SAME Python objects are handed over whenever a token recurs inside a session (one command list per command
+    token, one dict per env token): whatever the library writes into its arguments is seen by the later steps."""
+    objs, lists, dicts, out = {}, {}, {}, []
+
+    def env_arg(t):
+        if t == 'N':
+            return None
+        if t not in dicts:
+            dicts[t] = env_of_tok(t)
+        return dicts[t]
+
+    for st in toks:
+        f = st.split('/')
+        if f[0] == 'N':
+            if f[2] not in lists:
+                lists[f[2]] = cmds_of_tok(f[2])
+            kw = {}
+            if f[3] != 'N':
+                kw['message'] = unhx(f[3])
+            if f[4] != 'N':
+                kw['env_data'] = env_arg(f[4])
+            objs[f[1]] = Script(lists[f[2]], **kw)
+            out.append('-')
+        elif f[0] == 'E':
+            s = objs.get(f[1])
+            if s is None:
+                out.append('MISSING')
+                continue
+            kw = {}
+            if f[2] != 'N':
+                kw['message'] = unhx(f[2])
+            if f[3] != 'N':
+                kw['env_data'] = env_arg(f[3])
+            try:
+                r = s.evaluate(**kw)
+                v = 'VALID' if r is True else 'INVALID' if r is False else 'ODD:%r' % (r,)
+            except ScriptError:
+                v = 'UNIMPL'
+            except Exception as e:
+                v = 'CRASH:' + type(e).__name__
+            out.append(v + ':' + stack_tok(s.stack))
+        else:
+            out.append('BADSTEP')
+    return ';'.join(out)
+
+
+def in_child(fn):
+    """one session = one forked child of the still untouched adapter process (sessions are served before any other
+    request): it starts from the state of the freshly imported library and leaves nothing behind, so the replay of a
+    single session request sees exactly the same process state"""
+    rd, wr = os.pipe()
+    pid = os.fork()
+    if pid == 0:
+        try:
+            os.close(rd)
+            try:
+                res = fn()
+            except RecursionError:
+                res = 'CRASH recursion'
+            except BaseException as e:
+                res = 'CRASH %s: %s' % (type(e).__name__, ' '.join(str(e).split())[:120])
+            with os.fdopen(wr, 'w') as f:
+                f.write(res)
+        finally:
+            os._exit(0)
+    os.close(wr)
+    with os.fdopen(rd) as f:
+        data = f.read()
+    os.waitpid(pid, 0)
+    return data if data else 'CRASH session process died'
+
+
 def dispatch(t):
+    if t[0] == 'ses' and len(t) >= 4:
+        return in_child(lambda: run_session(t[3:]))
     if t[0] != 'ev' or len(t) != 5:
         return 'BADREQ'
     s = Script(cmds_of_tok(t[4]))
@@ -56,4 +136,26 @@ def dispatch(t):
     return v + ' ' + stack_tok(s.stack)
 
 
-serve(dispatch)
+def main():
+    lines = [l.strip() for l in sys.stdin.read().split('\n')]
+    if lines and lines[-1] == '':
+        lines.pop()
+    answers = [None] * len(lines)
+    # sessions first: every one forks from the process as it is right after the import
+    for i, l in enumerate(lines):
+        if l.startswith('ses '):
+            answers[i] = dispatch(l.split(' '))
+    out = sys.stdout
+    for i, l in enumerate(lines):
+        if answers[i] is None:
+            try:
+                answers[i] = dispatch(l.split(' '))
+            except RecursionError:
+                answers[i] = 'CRASH recursion'
+            except Exception as e:
+                answers[i] = 'CRASH %s: %s' % (type(e).__name__, ' '.join(str(e).split())[:120])
+        out.write(answers[i] + '\n')
+    out.flush()
+
+
+main()
